@@ -132,6 +132,11 @@ def rows_preserved(inp, out, need_int=True):
 
 
 def run(chk):
+    with linkgen.size_limit(linkgen.LIMIT):
+        return _run(chk)
+
+
+def _run(chk):
     import trackpy as tp
     from trackpy.linking.linking import Linker
     from trackpy.linking.utils import SubnetOversizeException
@@ -141,7 +146,7 @@ def run(chk):
     terms, metas = [], []
     for k in range(n):
         c = c02.gen_case(chk.rng, chk.tier)
-        c['max_size'] = 30
+        c['max_size'] = linkgen.LIMIT
         if linkgen.max_inrange(c['frames'], c['sr'], c['memory']) > 8:
             chk.tally('skipped: neighbour cap binding'); continue
         frames = c['frames']
@@ -226,6 +231,11 @@ def run(chk):
 
 
 def replay(chk, path):
+    with linkgen.size_limit(linkgen.LIMIT):
+        return _replay(chk, path)
+
+
+def _replay(chk, path):
     common.quiet_trackpy()
     chk.coq()
     r = json.load(open(path))['replay']
